@@ -2115,7 +2115,7 @@ fn fuzz(seed: u64, thorough: bool, st: &mut Stats, dir: &std::path::Path) {
     st.v.insert("fonts".into(), fonts.len().into());
     paint_id_purity(&fonts, st);
     // deterministic case list: (font index, mutation id); per-font case count grows slowly with size
-    let scale: f64 = std::env::var("C01_SCALE").ok().and_then(|s| s.parse().ok()).unwrap_or(if thorough { 40.0 } else { 4.0 });
+    let scale: f64 = std::env::var("C01_SCALE").ok().and_then(|s| s.parse().ok()).unwrap_or(if thorough { 50.0 } else { 6.0 });
     let mut cases: Vec<(usize, u64)> = vec![];
     for (fi, f) in fonts.iter().enumerate() {
         let per = ((3.0e6 / (f.bytes.len() as f64 + 1500.0)).clamp(40.0, 1400.0) * scale) as u64;
